@@ -83,6 +83,10 @@ def parse_type(p):
         p.expect('['); n = int(p.rx(r'\d+').group(0)); p.expect('x'); el = parse_type(p); p.expect(']'); t = TArr(n, el)
     elif p.peek('%'):
         m = p.rx(r'%(' + NAME_RE + ')'); t = TNamed(m.group(1))
+    elif p.eat('float'): t = TInt(32)          # floating-point types: layout only (their arithmetic is not modelled)
+    elif p.eat('double'): t = TInt(64)
+    elif p.eat('half'): t = TInt(16)
+    elif p.eat('x86_fp80') or p.eat('fp128'): t = TInt(128)
     else:
         m = p.rx(r'i(\d+)')
         if not m: raise SyntaxError('type? ' + p.rest()[:80])
@@ -129,6 +133,13 @@ def parse_value(p, ty):
         m = p.rx(r'%(' + NAME_RE + ')'); return V('local', name=m.group(1), ty=ty)
     if p.peek('@'):
         m = p.rx(r'@(' + NAME_RE + ')'); return V('global', name=m.group(1), ty=ty)
+    m = p.rx(r'-?\d+\.\d*(?:[eE][+-]?\d+)?|0x[0-9A-Fa-f]+')
+    if m:           # a floating-point constant (decimal, or the IEEE double bit pattern in hexadecimal): kept as its bit pattern
+        import struct
+        txt = m.group(0); bits = ty.n if isinstance(ty, TInt) else 64
+        d = struct.unpack('<d', struct.pack('<Q', int(txt, 16)))[0] if txt.startswith('0x') else float(txt)
+        val = struct.unpack('<I', struct.pack('<f', d))[0] if bits == 32 else struct.unpack('<Q', struct.pack('<d', d))[0]
+        return V('int', val=val, ty=ty)
     m = p.rx(r'-?\d+')
     if m: return V('int', val=int(m.group(0)), ty=ty)
     w = p.peekword()
